@@ -271,6 +271,7 @@ def run_combo(ctx, idx, A, op, Bq, tier, matrix=None):
         # a plain zero next to a quantity: no kind is dictated for number +- quantity, whatever the number
         pairs.append((0.0, vbs[0]) if ka in NUM else (vas[0], 0.0))
     if op in '+-' and ka not in NUM and kb not in NUM:
+        pairs.append((5e-13, 1e-13))          # magnitudes next to the library's comparison tolerance: arithmetic has none
         pairs.append((vas[1], vbs[1] * 1e3))
         pairs.append((vas[0], vas[0]))
     outcomes = set()
@@ -304,6 +305,28 @@ def run_combo(ctx, idx, A, op, Bq, tier, matrix=None):
                     sk = type(s).__name__
                     # (the known finding D10 never reaches this law on the tree it was found on: whatever fails here is new)
                     ctx.violation('C06:inverse-law-add-sub', dict(wit, kind_of_the_sum=sk), case)
+        if res[0] == 'ok' and op in '+-' and ka not in NUM and kb not in NUM:
+            # augmented assignment (x += y, x -= y) is the same operation; the object it leaves bound to x must BE that result for
+            # everything that follows (its public value AND the arithmetic that reads it)
+            x_, y_ = mk(ka, ua, va), mk(kb, ub, vb)
+            try:
+                if op == '+':
+                    x_ += y_
+                else:
+                    x_ -= y_
+                twice = x_ * 2
+            except (TypeError, ValueError):
+                x_ = None
+            if x_ is not None and not isinstance(x_, (int, float)):
+                ctx.count('augmented_assignments')
+                kx = type(x_).__name__
+                xs = x_.value * SI.FACT[kx][x_.unit] if kx in SI.FACT and x_.unit in SI.FACT[kx] else float('nan')
+                kt = type(twice).__name__
+                ts = twice.value * SI.FACT[kt][twice.unit] if kt in SI.FACT and getattr(twice, 'unit', None) in SI.FACT.get(kt, {}) else float('nan')
+                sc_ = max(abs(si_of(ka, ua, va)), abs(si_of(kb, ub, vb)))
+                if not (abs(xs - res[1]) <= 1e-9 * sc_ + 1e-300 and abs(ts - 2 * res[1]) <= 2e-9 * sc_ + 1e-300):
+                    ctx.violation('C06:augmented-assignment-differs-from-the-operation', {'a': [ka, va, ua], 'op': op + '=', 'b': [kb, vb, ub], 'plain_result_si': res[1],
+                                                                                         'after_augmented_si': xs, 'then_times_2_si': ts, 'kind': kx}, case)
         if res[0] in ('ok', 'd10') and op == '-' and ka not in NUM and kb not in NUM:
             try:
                 other = -(mk(kb, ub, vb) - mk(ka, ua, va))
